@@ -204,7 +204,8 @@ def run(ctx: Context) -> None:
         Y, X = size_sym('y_dimension'), size_sym('x_dimension')
         fc1 = ctx.func(f"{GRID}.CFGrid1D.face_centres")
         it, src = interpret(ctx, fc1, {'topology.longitude': ('lon', [X]), 'topology.latitude': ('lat', [Y]),
-                                       'self.topology.longitude': ('lon', [X]), 'self.topology.latitude': ('lat', [Y])}, {})
+                                       'self.topology.longitude': ('lon', [X]), 'self.topology.latitude': ('lat', [Y])},
+                            {'self.topology.shape': [Y, X], 'topology.shape': [Y, X]})      # (CFGridTopology.shape = (y, x): checked by R02.2)
         val = it.returns[0][1] if it.returns else None
         ok = False
         detail = repr(val) if not isinstance(val, Arr) else val.show()
@@ -237,8 +238,9 @@ def run(ctx: Context) -> None:
         if len(cs) == 1 and isinstance(cs[0].args[0], ast.Tuple) and len(cs[0].args[0].elts) == 2:
             a, b = (flow.canon(e) for e in cs[0].args[0].elts)
             ok = 'face_x' in repr(a) and 'face_y' in repr(b) and 'face_y' not in repr(a) and 'face_x' not in repr(b)
-            tests = [(norm_text(st.test), inb) for st, inb in enclosing_ifs(ufc, cs[0])]
-            ok = ok and any(inb and 'face_x is not None' in t and 'face_y is not None' in t for t, inb in tests)
+            from .common import facts as _facts02
+            known = _facts02(ctx, ufc, cs[0], expand=False)
+            ok = ok and any(t.endswith('face_x is None') and not pol for t, pol in known) and any(t.endswith('face_y is None') and not pol for t, pol in known)
         ctx.check('R02.4', ok, "UGRID face centres: (face_x, face_y) as stored, when both exist", ufc, cs[0] if cs else ufc.node)
         fallback = [r for r in ufc.returns() if isinstance(r.value, ast.Attribute) and norm_text(r.value) == 'super().face_centres']
         ctx.check('R02.4', len(fallback) == 1, "otherwise the generic centroid implementation is used", ufc, fallback[0] if fallback else ufc.node)
